@@ -2,51 +2,47 @@
    Statements only.  [find_loops], [take_counts] (PM.Syntax) and [loc] (PM.FileIO) are the executable
    models of FindLoops, Analysis.take_counts and file_io.loc, driven by the method tables GENERATED from
    pymwp on this run; [spec_pre] / [spec_loops] / [code_lines] are the specification.
-   Full-strength statements C19_find_loops and C19_loc are FALSE of the faithful model of the unchanged
-   code (D12, D11): their refutations (vm_compute witnesses that replay on the real code) and the
-   strongest proved restrictions are listed instead. *)
+   All statements are for every tree of the generic pycparser tree type (any size, any nesting depth)
+   and every text. *)
 From Coq Require Import String Ascii List.
 From PM Require Import Tree Syntax FileIO Syntax_proofs_C19 Syntax_proofs_loc.
 Import ListNotations.
 
-(* full statement (all schema-respecting trees):  find_loops f = Some (spec_loops f).  Refuted: *)
-Theorem C19_find_loops_refuted :
-  exists f, wf_pyc f = true /\ is_func f = true /\ spec_loops f = [] /\
-            find_loops f = Some [[("body"%string, 0); ("block_items"%string, 0)]].
-Proof. exact find_loops_refuted. Qed.
+(* FindLoops = the while, do-while and counted for nodes of the preorder through FuncDef body, Compound,
+   If, While, DoWhile, For, Switch, Case, Default (and the expression / declaration lists BaseAnalysis
+   iterates, which hold no statements in a parse tree), in source order, at any depth.  [find_loops f]
+   is None only when the variable walker raises (a FuncDef without declarator: no parse tree has one). *)
+Theorem C19_find_loops :
+  forall f l, find_loops f = Some l -> l = spec_loops f.
+Proof. exact find_loops_spec. Qed.
 
-(* proved for every tree, of any size and depth, whose traversed nodes have classes NodeHandler lists
-   (no fall-through to FindLoops.handler), are not comma-expression / declaration-list nodes, and whose
-   for-loop headers do not make init_vars raise: FindLoops = the while, do-while and counted for nodes of
-   the preorder through {FuncDef body, Compound, If, While, DoWhile, For, Switch, Case, Default}, in
-   source order *)
-Theorem C19_find_loops_partial :
-  forall f, plain_tree f -> find_loops f = Some (spec_loops f).
-Proof. exact find_loops_partial. Qed.
-
-(* statistics: number of function definitions, of loops of the specification traversal, of distinct
-   variable names per function and per loop *)
-Theorem C19_counts_partial :
-  forall ast cnt, Forall plain_tree (filter is_func (kidl ast "ext")) -> take_counts ast = Some cnt -> count_spec ast cnt.
-Proof. exact counts_partial. Qed.
+(* statistics: number of function definitions, of loops of the specification traversal (empty ones
+   included), of distinct variable names per function and per loop *)
+Theorem C19_counts :
+  forall ast cnt, take_counts ast = Some cnt -> count_spec ast cnt.
+Proof. exact counts_spec. Qed.
 
 Theorem C19_vars_distinct :
   forall ns l, vars_of ns = Some l -> NoDup l /\ (forall x, In x l <-> In x (vnames_of (flat_map vitems ns))).
 Proof. exact vars_of_nodup. Qed.
 
-(* full statement (all texts):  loc text = code_lines text.  Refuted by  a;/*<newline>*/b;  *)
-Theorem C19_loc_refuted : exists text, loc text = 1 /\ code_lines text = 2.
-Proof. exact loc_refuted. Qed.
+(* loc = number of physical lines holding a non-blank character outside comments; character and
+   string literals are opaque (their content is code) *)
+Theorem C19_loc :
+  forall text, loc text = code_lines text.
+Proof. exact loc_spec. Qed.
 
-(* proved for every text in which each comment spanning a line break starts its line; missing: comments
-   that END a line (code before, nothing after) also count correctly but need a look-ahead invariant *)
-Theorem C19_loc_partial :
-  forall text, ml_ok false (lex text) = true -> loc text = code_lines text.
-Proof. exact loc_partial. Qed.
+(* regressions of the two repaired defects, evaluated on the current model *)
+Theorem C19_regression_typedef_not_a_loop :
+  wf_pyc d12_func = true /\ is_func d12_func = true /\ find_loops d12_func = Some [] /\ vars_of [d12_func] = Some [].
+Proof. exact find_loops_d12. Qed.
 
-Print Assumptions C19_find_loops_refuted.
-Print Assumptions C19_find_loops_partial.
-Print Assumptions C19_counts_partial.
+Theorem C19_regression_comment_between_code : loc d11_text = 2 /\ code_lines d11_text = 2.
+Proof. exact loc_d11. Qed.
+
+Print Assumptions C19_find_loops.
+Print Assumptions C19_counts.
 Print Assumptions C19_vars_distinct.
-Print Assumptions C19_loc_refuted.
-Print Assumptions C19_loc_partial.
+Print Assumptions C19_loc.
+Print Assumptions C19_regression_typedef_not_a_loop.
+Print Assumptions C19_regression_comment_between_code.
